@@ -56,7 +56,7 @@ ALPHABET = {
     "zeros": [["PS-A", row([0.0, 0.0])], ["PS-B", row([0.0, 0.0])]],
     # rows of different value types in one mapping: whole amperes as Python ints / an integer array FIRST, fractions after
     "mixed": [["PS-C", row([6, 8], "int")], ["PS-A", row([7.5, 8.25])]],
-    "mixednp": [["PS-C", row([8, 6], "intarr")], ["PS-A", row([0.75, 31.25], "np64")]],
+    "mixednp": [["PS-C", row([8, 6], "intarr")], ["PS-A", row([6.75, 31.25], "np64")]],
     # malformed
     "unknown": [["PS-A", row([16])], ["PS-X", row([8])]],
     "ragged": [["PS-A", row([8, 16])], ["PS-B", row([8])]],
